@@ -21,6 +21,7 @@ CORPUS_SRC = [
     'int f(int x,int y){ x = y; y = x; }',
     'int f(int x){ }',
     'int f(int x,int y){ do { x = x + y; } while (x < 10); }',
+    'int f(int x,int y){ assert(x < 1); while (x < y) { assume(y > 0); x = y + y; } assert(x == y); }',
     # closure that needs a late round: one heavy edge reached through a 3-step chain of copies (if-chain body)
     'int f(int a,int b,int c,int d,int t){ while (t) { if (t) { c = b * b; } else if (t) { d = c; c = a; b = a; } else if (t) { d = a; } else { d = b; } } }',
     # shift register: the k-th stage shows only in the k-th power of the body relation
@@ -139,7 +140,33 @@ def gen_sources(ctx, n, opts_fn):
     return out
 
 
-def run_functions(ctx, sources, modes, on_result=None, check_op='check.func', classify=None, strict_every=0):
+PROVOKERS = [
+    'int pa(int x1,int x2,int x0){ while (x1 < x2) { x0 = x1 + x2; } }',
+    'int pb(int a,int b){ while (a < b) { a = a * a; } }',
+    'int pc(int n,int x0,int x1){ int i; for (i = 0; i < n; i++) { x0 = x0 + x1; } }',
+    'int pd(int a,int b,int c){ while (a < 1) { b = a + c; c = b + b; } a = b * c; }',
+]
+
+
+def observe_through_file(ctx, src, fnode, fin, strict):
+    """Analyse `fnode` as the last function of a file through Analysis.run; returns (obs, result, file source)"""
+    from pymwp import Analysis
+    import copy as _copy
+    pre = ctx.rng.sample(PROVOKERS, ctx.rng.randint(1, 2))
+    text = '\n'.join(pre) + '\n' + src
+    ast = astwire.parse(text)
+    name = fnode.decl.name
+    val, err = implobs.with_time_limit(lambda: Analysis.run(_copy.deepcopy(ast), fin=fin, strict=strict))
+    if err is not None:
+        return err, None, text
+    if name not in val.relations:
+        return {'raised': 'MissingFromResult', 'msg': f'{name} not in the result of the file'}, None, text
+    fr = val.relations[name]
+    return implobs.obs_of_result(fr, ctx.rng), fr, text
+
+
+def run_functions(ctx, sources, modes, on_result=None, check_op='check.func', classify=None, strict_every=0,
+                  through_file=3):
     """For every source x (fin, strict): real analysis, model, Lean predicate.
     classify(violation_dict, src, fin, strict, obs) -> signature dict"""
     drv = ctx.drv
@@ -190,7 +217,13 @@ def run_functions(ctx, sources, modes, on_result=None, check_op='check.func', cl
                         on_result(src, fin, strict, info, None, None)
                     continue
                 wire = astwire.W(node)
-                obs, res = implobs.observe_func(node, fin, ctx.rng)
+                if through_file and k_src % through_file == 0 and len(astwire.funcs(ast)) == 1:
+                    # the user's path: the function as the LAST definition of a file analysed by Analysis.run,
+                    # after one or two functions that fail in different ways (one fails partially, one collapses)
+                    obs, res, src = observe_through_file(ctx, src, fnode, fin, strict)
+                    ctx.count('through_file')
+                else:
+                    obs, res = implobs.observe_func(node, fin, ctx.rng)
                 if obs.get('raised') == 'Timeout':
                     ctx.count('analysis_timeout')      # running time is not decided here (exit 2 territory), skip
                     continue
